@@ -308,8 +308,9 @@ func runAlloc(c *Ctx) {
 					}
 				}
 			}
-			if g := p.CalleeInfo(info, call); g != nil && (g.Name == "bufpool.New" || g.Name == "transfer.chunkPoolFor") && len(call.Args) == 1 {
-				size = call.Args[0]
+			inSidecarOrBitmap := strings.HasSuffix(f.Prog.Fset.Position(f.Pos()).Filename, "/sidecar.go") || strings.HasSuffix(f.Prog.Fset.Position(f.Pos()).Filename, "/bitmap.go")
+			if g := p.CalleeInfo(info, call); g != nil && (g.Name == "bufpool.New" || g.Name == "transfer.chunkPoolFor" || g.Name == "transfer.NewBitmap" && !inSidecarOrBitmap) && len(call.Args) == 1 {
+				size = call.Args[0] // NewBitmap(n) allocates n/8 bytes (round 10: the index bitmap of a file without resume metadata)
 				what = g.Name
 			}
 			// resume metadata: a bitmap of ceil(fileSize / chunkSize) bits is allocated (and written to disk) by these calls
